@@ -18,7 +18,7 @@ func init() {
 		jsonSinkRule("C08.example", "an example (exampleBuilder): an example that is not JSON is not an instance of any schema", func(pkgRel, fn string) bool {
 			return pkgRel == "notations/jschema" && strings.Contains(fn, "exampleBuilder")
 		}, 4),
-		c08jsonValue, sepRule("C08.sep", []string{"openapi"}, 4))
+		c08jsonValue, c08props, sepRule("C08.sep", []string{"openapi"}, 4))
 }
 
 // c08wire: rule-name constants used in openapi/** must be rule names; keyword<-rule table.
@@ -157,4 +157,66 @@ func c08jsonValue(c *core.Ctx) {
 		}
 	}
 	c.Check(ok, R, "jsonValue:shape", c.P.Pos(d.Decl.Pos()), "Example.jsonValue encodes string values with ToJSONString and copies other literals verbatim", "the example/enum value encoder no longer JSON-encodes strings: a string value containing a quote or backslash breaks the generated OpenAPI document")
+}
+
+// c08props: which children become OpenAPI properties is decided by the shortcut flag only.
+func c08props(c *core.Ctx) {
+	const R = "C08.props"
+	c.Rule(R, "jsoac.newObject turns every child of the AST node into a property (and a `required` entry) except key shortcuts, and what is a key shortcut is read from the child's IsKeyShortcut flag - never from the text of the key: an ordinary quoted property named \"@id\" stays a property. With additionalProperties:false generated for the object, a dropped property makes the schema's own example an invalid instance")
+	c.Floor(R, 1)
+	d := c.P.FindDecl("openapi/internal/jsoac.newObject")
+	if d == nil {
+		c.Unresolved(R, "openapi/internal/jsoac.newObject")
+		return
+	}
+	found := false
+	ast.Inspect(d.Decl.Body, func(n ast.Node) bool {
+		rs, ok := n.(*ast.RangeStmt)
+		if !ok || !strings.HasSuffix(core.ExprStr(rs.X), ".Children") {
+			return true
+		}
+		var stack []ast.Node
+		var conds []string
+		appended := false
+		ast.Inspect(rs.Body, func(m ast.Node) bool {
+			if m == nil {
+				stack = stack[:len(stack)-1]
+				return true
+			}
+			stack = append(stack, m)
+			record := func() {
+				for _, a := range stack {
+					if ifs, ok := a.(*ast.IfStmt); ok {
+						conds = append(conds, core.ExprStr(ifs.Cond))
+					}
+				}
+			}
+			switch y := m.(type) {
+			case *ast.CallExpr:
+				if strings.HasSuffix(core.ExprStr(y.Fun), ".appendProperty") {
+					appended = true
+					record()
+				}
+			case *ast.BranchStmt, *ast.ReturnStmt:
+				record()
+			}
+			return true
+		})
+		if !appended {
+			return true
+		}
+		found = true
+		bad := ""
+		for _, cnd := range conds {
+			t := strings.TrimPrefix(strings.TrimSpace(cnd), "!")
+			if !strings.HasSuffix(t, ".IsKeyShortcut") || strings.ContainsAny(t, " &|=[") {
+				bad = cnd
+			}
+		}
+		c.Check(bad == "", R, "newObject:children", c.P.Pos(rs.Pos()), "children become properties unless IsKeyShortcut", "whether a child becomes a property depends on `"+bad+"`: an ordinary property can be dropped from `properties`/`required`")
+		return false
+	})
+	if !found {
+		c.Bad(R, "newObject:children", c.P.Pos(d.Decl.Pos()), "loop over the children in newObject", "undecided: no loop over .Children calling appendProperty")
+	}
 }
